@@ -1,4 +1,5 @@
 import Oracle.AccessUtil
+import Oracle.SetUserLogins
 import MobiusModel.ChatGate
 import MobiusModel.LoginName
 /-! Oracle handlers for C05: the governing-privilege table and the handlers' decision model. -/
@@ -72,6 +73,6 @@ def c05Handlers : List (String × Handler) := [
   ("isset", fun (a : List String) => match a with
     | [b, i] => toString ((bitmapOf b).isSet (num i))
     | _ => "bad-op")
-]
+] ++ suLoginsHandlers
 
 end Oracle
